@@ -130,6 +130,10 @@ class SymV:
 
     def real(self, name, lo=None, hi=None, pos=False, **kw):
         e = z3.Real(name)
+        if not kw.get("box"):
+            # proofs quantify a real variable over [lo, +inf): the upper end given in a contract is only where the native samples are drawn
+            # (box=True keeps it as an assumption where a clause really is about a bounded range)
+            hi = None
         self._bounds(e, lo, hi)
         if pos:
             self.path.assume(e > 0)
